@@ -69,7 +69,7 @@ VALS = {
     'bool': [True, False],
     'any': [None, 1, 'a', D('2.50'), datetime.date(2020, 1, 1), True],
     'idx': [0, 1, -1, 5],
-    'list': [['a', 'b'], [1, 2, 7]],
+    'list': [['a', 'b'], [1, 2, 7], ['b', 'a', 'b']],
 }
 
 
@@ -103,6 +103,8 @@ def templates():
     T.append(('agg', 'SELECT k, sum(v * %(p0)s) AS s FROM #t WHERE v != %(p1)s GROUP BY k HAVING count(*) > %(p2)s', ['int', 'int', 'int'],
               lambda p: select([(k, None), (F('sum', A.Mul(v, p[0])), 's')], from_='t', where=A.NotEqual(v, p[1]), group_by=A.GroupBy([k], A.Greater(F('count', A.Asterisk()), p[2])))))
     T.append(('in-list', 'SELECT id FROM #t WHERE k IN %(p0)s', ['list'], lambda p: select([(id_, None)], from_='t', where=A.In(k, p[0]))))
+    T.append(('list-value', 'SELECT id, %(p0)s AS x, length(%(p0)s) AS n FROM #t WHERE id < 2', ['list'],
+              lambda p: select([(id_, None), (p[0], 'x'), (F('length', p[0]), 'n')], from_='t', where=A.Less(id_, C(2)))))
     T.append(('date', 'SELECT %(p0)s + v AS d, year(%(p0)s) AS y FROM #t', ['date'], lambda p: select([(A.Add(p[0], v), 'd'), (F('year', p[0]), 'y')], from_='t')))
     T.append(('bool', 'SELECT id FROM #t WHERE %(p0)s AND v > %(p1)s', ['bool', 'int'], lambda p: select([(id_, None)], from_='t', where=A.And([p[0], A.Greater(v, p[1])]))))
     T.append(('coalesce', 'SELECT coalesce(v, %(p0)s) AS r FROM #t', ['int'], lambda p: select([(F('coalesce', v, p[0]), 'r')], from_='t')))
@@ -293,6 +295,9 @@ class World:
         self.AGG = select([(k, None), (F('sum', v), 's'), (F('count', A.Asterisk()), 'c')], from_='t', group_by=A.GroupBy([k], None), order_by=[A.OrderBy(2, A.Ordering.DESC)])
         self.INQ = select([(id_, None), (A.In(v, select([(col('j'), None)], from_='u')), 'm')], from_='t')
         self.SUBQ = select([(A.Add(col('a'), C(1)), 'r')], from_=select([(v, 'a')], from_='t', where=A.IsNotNull(v)))
+        # a second FROM-subquery with other column names, fewer columns and another order (state shared between sub-query tables)
+        self.SUBQ2 = select([(col('b'), None), (col('z'), None)], from_=select([(k, 'z'), (id_, 'b')], from_='t', where=A.IsNotNull(k)))
+        self.SUBQSTAR = select(A.Asterisk(), from_=select([(v, 'w')], from_='t', where=A.IsNotNull(v)))
         self.BAL = fresh_parse('SELECT account, balance, number, balance FROM #postings WHERE year = 2019 AND month = 1')
         self.OPENCLOSE = fresh_parse('SELECT account, sum(position) AS s FROM OPEN ON 2019-02-01 CLOSE ON 2019-03-01 GROUP BY account ORDER BY account')
         self.PIVOT = fresh_parse('SELECT k, id % 2 AS par, count(*) AS n FROM #t WHERE k IS NOT NULL GROUP BY k, par PIVOT BY k, par')
@@ -332,6 +337,8 @@ class World:
             ('TEXTQ', lambda: c.execute(SHELL_QUERY_TEXT)),
             ('ENTRIES', lambda: c.execute(self.ENTRIES)),
             ('SUMINV', lambda: c.execute(self.SUMINV)),
+            ('SUBQ2', lambda: c.execute(self.SUBQ2)),
+            ('SUBQSTAR', lambda: c.execute(self.SUBQSTAR)),
         ]
 
     def _shellrun(self):
